@@ -76,7 +76,7 @@ pub fn ord_s(o: Option<core::cmp::Ordering>) -> &'static str {
 }
 
 pub fn spec_json(s: &Spec) -> Value {
-    json!({"plus": s.plus, "fill": s.fill.map(|c| c as i64).unwrap_or(-1), "align": s.align.map(|c| c.to_string()).unwrap_or("-".to_string()),
+    json!({"plus": s.plus, "zero": s.zero, "fill": s.fill.map(|c| c as i64).unwrap_or(-1), "align": s.align.map(|c| c.to_string()).unwrap_or("-".to_string()),
            "width": s.width.map(|w| w as i64).unwrap_or(-1), "prec": s.prec.map(|w| w as i64).unwrap_or(-1)})
 }
 
